@@ -28,6 +28,8 @@ type FSym struct {
 	Rho     *big.Rat
 	l       *sym.Lin
 	intConv *sym.Lin // set for int->float conversions beyond 2^53: the integer
+	neg     bool     // the float is minus the float described by op
+	op      string   // structural key of the float computation: equal keys, equal floats
 	Exact   bool
 }
 
